@@ -374,8 +374,11 @@ func (p *Packer) resolveExternalLinkDepth(root string, path string, depth int) (
 		return nil, fmt.Errorf("failed to read symlink %q: %w", path, err)
 	}
 
-	// Get the absolute path of the symlink target.
-	absTarget := target
+	// Get the absolute path of the symlink target. An absolute target is
+	// cleaned like a relative one is by Join: with a trailing separator
+	// Lstat would follow a final symlink while the walk over the target,
+	// which works on the cleaned path, would not.
+	absTarget := filepath.Clean(target)
 	if !filepath.IsAbs(absTarget) {
 		absTarget = filepath.Join(filepath.Dir(path), target)
 	}
